@@ -64,6 +64,16 @@ impl Check for C12 {
                                 if let Some(s) = &prev_snap {
                                     if s.peers.iter().any(|p| &p.addr == addr && p.piece_index.is_some() && !p.choked) {
                                         choke_on_holder = true;
+                                        vd.probe("choke_from_peer_holding_an_assignment");
+                                    }
+                                    if s.peers.iter().any(|p| &p.addr == addr && p.choked) {
+                                        vd.probe("redundant_choke");
+                                    }
+                                }
+                            } else if name == "Unchoke" {
+                                if let Some(s) = &prev_snap {
+                                    if s.peers.iter().any(|p| &p.addr == addr && !p.choked) {
+                                        vd.probe("redundant_unchoke");
                                     }
                                 }
                             }
@@ -107,6 +117,9 @@ impl Check for C12 {
                         }
                         // I2: Reserved => somebody un-choking is assigned it
                         for (i, st) in s.status.iter().enumerate() {
+                            if *st > 1 {
+                                vd.probe("snapshots_with_piece_reserved_by_2_or_more");
+                            }
                             if *st > 0 {
                                 saw_reserved = true;
                                 let holder = s.peers.iter().any(|p| p.piece_index == Some(i) && !p.choked);
@@ -136,6 +149,14 @@ impl Check for C12 {
                         if let Some(s) = &prev_snap {
                             if s.peers.iter().any(|p| &p.addr == addr && p.piece_index.is_some()) {
                                 choke_on_holder = true;
+                                vd.probe("peer_gone_while_holding_an_assignment");
+                            }
+                        }
+                    }
+                    Ev::DialIn { from, accepted: true, .. } => {
+                        if let Some(s) = &prev_snap {
+                            if s.peers.iter().any(|p| &p.addr == from) {
+                                vd.probe("dial_in_from_already_connected_address");
                             }
                         }
                     }
